@@ -10,7 +10,8 @@ is returned; an alphabet shorter than the distinct values fails (a normal return
 the alphabet); no state survives a call and a result belongs to its caller (call sequences in one process against fresh
 processes); the tool writes exactly the text component of the library result for the content of the input file and the option
 values as they were given (representatives on which reordering, de-duplication, case folding, stripping are visible),
-also with output path == input path, and touches nothing when no action is requested.
+on every path and whatever the result is (a new text / the input text itself / the empty text of an empty file; output
+file stale, absent, or the input path itself), and touches nothing when no action is requested.
 
 The pinned-form rules below (statement shapes at the pinned commit) are only the fallback when a function cannot be
 evaluated (a construct outside the supported fragment).
@@ -319,7 +320,8 @@ def run(chk) -> None:
         "representative per class of their input partition in a closed stub world: documents with no block / without the category / without the source item / with '.', '?', quoted and repeated values / a new "
         "target item / a category without rows / a second untouched block; alphabets longer than, exactly as long as and shorter than the number of distinct values; sequences of calls on one text in one process (other source / same source, "
         "other target / identical call, results emptied by the caller) against the same calls in fresh processes; command lines with each option group complete, partial, absent, both, option values not in code-point "
-        "order / with a repeated symbol / with capitals, blanks and punctuation, each with distinct paths and with output path == input path. Stubs: dict file system (buffered writes, truncation at open-for-write, temporary files deleted on close), "
+        "order / with a repeated symbol / with capitals, blanks and punctuation, each with distinct paths (stale output file / output path that does not exist yet) and with output path == input path, and each for every class of the "
+        "library result (a text naming the arguments / the input text itself, as the library returns it when the category or item is missing / the empty text of an empty input file). Stubs: dict file system (buffered writes, truncation at open-for-write, temporary files deleted on close), "
         "IoAdapterPy.readFile/writeFile, data container (replace installs only under an existing name), DataCategory (deep-copying constructor, getValueOrDefault returning the default for '.', '?', None), argparse "
         "(FileType opens while parsing), and for the CLI the library functions as stubs returning a text that names the arguments they received. Every statement of the evaluated functions must be reached by a "
         "representative. The pinned-form rules are only a fallback for a function that cannot be evaluated."
@@ -366,7 +368,7 @@ MANIFEST_ENTRY = {
     "text": "Static decision on the current source of transformer.py: copy_from_to, replace_value and main are evaluated from their ast (nothing is imported or run) on one representative per class of their inputs in a stub world "
     "(dict file system, model of the mmcif adapter / container / DataCategory, argparse model). Facts decided: a missing block / category / source item returns the input text itself; every row's target becomes its source "
     "('.' and '?' included), a new item is appended, nothing else changes and the written document contains the edit; the first-seen mapping is applied and returned, and a call with an alphabet of too few symbols fails (a normal return "
-    "cannot be an injective mapping into the alphabet); no state survives a call and a result belongs to its caller; the CLI writes exactly the text component of the library result for the content of the input file and the option values as given, also when output and input are the same path, and touches nothing without an action. "
+    "cannot be an injective mapping into the alphabet); no state survives a call and a result belongs to its caller; the CLI writes exactly the text component of the library result for the content of the input file and the option values as given, on every path and whatever that result is (also the unchanged input text), also when output and input are the same path, and touches nothing without an action. "
     "The frame condition and the CLI path are never executed by the suite; here they are facts about every statement of the code (coverage obligation).",
     "note": "Trusted: mmcif library re-serialisation of untouched categories and its list-returning accessors.",
     "technique": "static analysis: whole-function evaluation of the ast on input-class representatives in a stub world (files, mmcif objects, argparse), coverage obligation; pinned-form rules as fallback",
